@@ -1009,4 +1009,49 @@ def evalChain (L : Lib) (x0 : Arg) : List (String × Arg) → Out Val
   | [] => .throw
   | (g, x1) :: rest => evalChainGo L g [x0, x1] rest
 
+/-! ## number of callback calls of `name(s, f)` (observed through a counting predicate) -/
+
+def isOkFalse : Out Bool → Bool
+  | .ok false => true
+  | _ => false
+def isOkTrue : Out Bool → Bool
+  | .ok true => true
+  | _ => false
+def isOk {τ : Type} : Out τ → Bool
+  | .ok _ => true
+  | _ => false
+
+/-- the Impl side: `any` / `all` through the instrumented fold loop, the other builtins through
+their stop rule -/
+def callsImpl (name : String) (s : Val) (f : Fn) : Nat :=
+  match s.elems? with
+  | none => 0
+  | some xs =>
+    match name with
+    | "any" => (seqFoldGoN f.pred anyBody false 0 xs).2
+    | "all" => (seqFoldGoN f.pred allBody true 0 xs).2
+    | "find" | "find?" | "locate" | "locate?" => callsUntil (fun o => !isOkFalse o) f.pred xs
+    | "take" | "drop" => callsUntil (fun o => !isOkTrue o) f.pred xs
+    | _ => callsUntil (fun o => !isOk o) f.call1 xs
+
+/-- the reference: index of the deciding (or failing) element + 1, else the length -/
+def callsSpec (name : String) (s : Val) (f : Fn) : Nat :=
+  match s.elems? with
+  | none => 0
+  | some xs =>
+    let decided : Out Bool → Bool :=
+      match name with
+      | "any" | "find" | "find?" | "locate" | "locate?" => fun o => !isOkFalse o
+      | "all" | "take" | "drop" => fun o => !isOkTrue o
+      | _ => fun _ => false
+    match name with
+    | "any" | "all" | "find" | "find?" | "locate" | "locate?" | "take" | "drop" =>
+      match xs.findIdx? fun x => decided (f.pred x) with
+      | some i => i + 1
+      | none => xs.length
+    | _ =>
+      match xs.findIdx? fun x => !isOk (f.call1 x) with
+      | some i => i + 1
+      | none => xs.length
+
 end Noulith.SeqLib
